@@ -46,13 +46,25 @@ TEMPLATES = (
 )
 
 
+class PoolStarvation(RuntimeError):
+    """a pool task waits (Future.result()) for another task that is still QUEUED on the same pool: on the one-worker pool this stub models,
+    nothing can ever run that task"""
+
+
+class StubFuture(Future):
+    def result(self, timeout=None):
+        if not self.done():
+            raise PoolStarvation("a pool worker blocks on a task that is still queued on the same pool")
+        return super().result(timeout)
+
+
 class StubPool:
     def __init__(self):
         self.tasks = []
         self.submitted = 0
 
     def submit(self, fn, *a, **kw):
-        f = Future()
+        f = StubFuture()
         self.tasks.append((f, fn, a, kw))
         self.submitted += 1
         return f
@@ -91,6 +103,7 @@ def drain(loop):
 
 
 SHARED_RESOLVER = False      # harness switch: see World.resolver
+NESTED_SUBMIT = False        # harness switch: custom-value resolvers hand their work to the runtime again (info.runtime.submit) and return what submit returns
 SAME_ROOT = False            # harness switch: the query and mutation root are the same object type
 UNEXPECTED_EXC = 0           # harness switch: which exception class a resolver of kind UNEXPECTED raises (index into unexpected_exceptions())
 
@@ -139,10 +152,20 @@ class World:
                 fut = self.loop.create_future()
                 self.pending.append((fut, lambda: self._compute(key, kind, root, tuple(info.path))))
                 return await fut
+            if NESTED_SUBMIT and kind == VALUE:
+                async def outer(root, ctx, info, **kw):
+                    return await info.runtime.submit(r, root, ctx, info, **kw)
+                return outer
             return r
 
         def r(root, ctx, info, **kw):  # noqa: F811
             return self._compute(key, kind, root, tuple(info.path))
+        if NESTED_SUBMIT and kind == VALUE:
+            # the public way of off-loading work from inside a resolver: the value comes back as whatever the runtime's submit returns
+            # (a pool future on the thread pool, the plain value on the blocking / asyncio runtimes)
+            def outer(root, ctx, info, **kw):  # noqa: F811
+                return info.runtime.submit(r, root, ctx, info, **kw)
+            return outer
         return r
 
     def _make_shared(self):
